@@ -27,12 +27,21 @@ IsFirst(seq, i) == \A j \in 1..(i - 1) : seq[j] # seq[i]
 \* a repeated dimension entry holds a different value (+500), so "first occurrence" is observable
 RepeatMark(ts, ls, ss, p) == IF IsFirst(ts, p[1]) /\ IsFirst(ls, p[2]) /\ IsFirst(ss, p[3]) THEN 0 ELSE 500
 
+\* extra field names of the generators, in a fixed order (values of different fields differ)
+ExtraPool == <<"q0.005", "q0.01", "Tmax">>
+ExtraOrderBefore(f) == {ExtraPool[k] : k \in 1..(IndexIn(ExtraPool, f) - 1)}
 \* g = [ts, ls, ss, hasObs, mo, mf] ; j = owner (forecast offset) ; mo/mf = missing positions
 MkInput(g, j) ==
   [times |-> g.ts, leads |-> g.ls, locs |-> g.ss,
    lat |-> [k \in DOMAIN g.ss |-> LatOf(g.ss[k])], lon |-> [k \in DOMAIN g.ss |-> LonOf(g.ss[k])],
    elev |-> [k \in DOMAIN g.ss |-> ElevOf(g.ss[k])],
    hasObs |-> g.hasObs,
+   \* extra fields (g.ex : field name -> missing positions, optional): values 3000 + 1000 k + 10000 j + Code for the k-th name
+   extra |-> IF "ex" \in DOMAIN g
+             THEN [f \in DOMAIN g.ex |-> [p \in Positions(g.ts, g.ls, g.ss) |->
+                     IF p \in g.ex[f] THEN NaN
+                     ELSE R(3000 + 1000 * Cardinality({x \in DOMAIN g.ex : x \in ExtraOrderBefore(f)}) + 10000 * j + Code(g.ts[p[1]], g.ls[p[2]], g.ss[p[3]]))]]
+             ELSE [f \in {} |-> <<>>],
    obs |-> [p \in Positions(g.ts, g.ls, g.ss) |->
               IF ~g.hasObs \/ p \in g.mo THEN NaN
               ELSE R(1000 + Code(g.ts[p[1]], g.ls[p[2]], g.ss[p[3]]) + RepeatMark(g.ts, g.ls, g.ss, p))],
@@ -222,6 +231,12 @@ In221(hasObs, mo, mf) == [ts |-> T2, ls |-> <<LeadPool[1], LeadPool[2]>>, ss |->
 UC18Single(u) == {[inp |-> <<In221(TRUE, a, b), In221(h, {}, d)>>, clim |-> NoClimGen, opt |-> o]
                     : a \in {{}, {<<1, 1, 1>>}}, b \in {{<<1, 2, 1>>}}, d \in {{}, {<<2, 1, 1>>}}, h \in BOOLEAN,
                       o \in {NoOptions, WithOpt(NoOptions, "obsrange", <<R(1112), R(1221)>>)}}
+\* extra fields (two quantile levels that agree to two decimals, another score column), each with its own missing cells in each input:
+\* a case counts only if EVERY requested field is present in EVERY input (C01); the two quantile levels are different fields (C18)
+ExIn(hasObs, mo, mf, e1, e2, e3) == [ts |-> T2, ls |-> L1, ss |-> S2, hasObs |-> hasObs, mo |-> mo, mf |-> mf, bump |-> 0,
+                                      ex |-> ("q0.005" :> e1 @@ "q0.01" :> e2 @@ "Tmax" :> e3)]
+UCExtra(u) == {[inp |-> <<ExIn(TRUE, a, {}, b, {}, {<<2, 1, 2>>}), ExIn(h, {}, d, {}, e, {})>>, clim |-> NoClimGen, opt |-> NoOptions]
+                 : a \in {{}, {<<1, 1, 1>>}}, b \in {{}, {<<1, 1, 2>>}}, d \in {{}, {<<2, 1, 1>>}}, e \in {{}, {<<1, 1, 1>>, <<2, 1, 2>>}}, h \in BOOLEAN}
 UC18Mix(u) == {[inp |-> <<In212(TRUE, a, b), In212(h, {}, d)>>, clim |-> cl, opt |-> o]
                   : a \in {{}, {<<1, 1, 1>>}}, b \in {{<<1, 1, 2>>}}, d \in {{}, {<<2, 1, 2>>}}, h \in BOOLEAN,
                     cl \in {NoClimGen, [on |-> TRUE, ts |-> T2, ls |-> L1, ss |-> S2, hasObs |-> FALSE, mo |-> {}, mf |-> {<<2, 1, 1>>},
@@ -279,6 +294,8 @@ Universe(u) ==
     [] Family = "C18Full"   -> UC01Full(0)
     [] Family = "C18Mix"    -> UC18Mix(0)
     [] Family = "C18Single" -> UC18Single(0)
+    [] Family = "C01Extra" -> UCExtra(0)
+    [] Family = "C18Extra" -> {g \in UCExtra(0) : g.inp[1].mo = {} /\ g.inp[2].mf = {}}
     [] Family = "C04"       -> UC04(0)
     [] Family = "C04Quick"  -> UC04Quick(0)
     [] Family = "C04Clim"   -> UC04Clim(0)
@@ -303,10 +320,14 @@ Universe(u) ==
 
 ---------------------------------------------------------------------------
 (* request menu: every field combination, input, and every slice of the listed axes *)
-FamKind == CASE Family \in {"C11", "C11All"} -> "calendar"
+FamKind == CASE Family \in {"C11", "C11All", "C11Sel"} -> "calendar"
+             [] Family \in {"C01Extra", "C18Extra"} -> "extra"
              [] Family \in {"C03K1", "C03K2", "C03K3", "C03ClimK1", "C03ClimK2"} -> "options"
              [] OTHER -> "plain"
-FieldSeqs == IF FamKind = "plain" THEN {<<"obs">>, <<"fcst">>, <<"obs", "fcst">>} ELSE {<<"fcst">>, <<"obs", "fcst">>}
+FieldSeqs == IF FamKind = "plain" THEN {<<"obs">>, <<"fcst">>, <<"obs", "fcst">>}
+             ELSE IF FamKind = "extra" THEN {<<"obs">>, <<"obs", "fcst">>, <<"q0.005">>, <<"q0.01">>, <<"obs", "q0.01">>, <<"fcst", "Tmax">>,
+                                             <<"obs", "fcst", "q0.005", "q0.01">>, <<"obs", "Tmax", "q0.005">>}
+             ELSE {<<"fcst">>, <<"obs", "fcst">>}
 MenuAxes == IF FamKind = "calendar" THEN (TimeAxes \cup LeadAxes \cup LocationAxes \cup {"no", "all"})
             ELSE IF FamKind = "options" THEN {"all", "no", "time", "location"}
             ELSE {"all", "no", "time", "leadtime", "location"}
@@ -325,7 +346,8 @@ Flat(I, F) ==
   IN  [n \in 1..(nt * nl * ns) |->
          J(F[<<((n - 1) \div (ns * nl)) + 1, (((n - 1) \div ns) % nl) + 1, ((n - 1) % ns) + 1>>])]
 InputJson(I) == [times |-> I.times, leads |-> I.leads, locs |-> I.locs, lat |-> I.lat, lon |-> I.lon,
-                 elev |-> I.elev, hasObs |-> I.hasObs, obs |-> Flat(I, I.obs), fcst |-> Flat(I, I.fcst)]
+                 elev |-> I.elev, hasObs |-> I.hasObs, obs |-> Flat(I, I.obs), fcst |-> Flat(I, I.fcst),
+                 extra |-> [f \in ExtraNames(I) |-> Flat(I, I.extra[f])]]
 OptJson(O) == [given |-> SetToSeq(O.given), t |-> SortInts(O.t), d |-> SortInts(O.d), tod |-> SortInts(O.tod),
                o |-> SortInts(O.o), l |-> SortInts(O.l), lx |-> SortInts(O.lx), latrange |-> O.latrange,
                lonrange |-> O.lonrange, elevrange |-> O.elevrange,
